@@ -122,9 +122,54 @@ theorem merge_keeps_pairwise_counter :
      for every split row `r`: max over (j, state) of forward(r, j, state) + backward(r, j, state) equals
      (viterbiGlobal h n m).score, and the concatenation of the two half tracebacks pinned to the anchor state is
      an optimal global path.
-   Not modelled in Lean.  The real code violates the second half (finding
-   C18-hirschberg-first-half-not-pinned-to-anchor-state); both code paths are compared on the same inputs by the
+   Not modelled in Lean.  The real code violated the second half (finding
+   C18-hirschberg-first-half-not-pinned-to-anchor-state, repaired in the repo by fe1585a19); both code paths are compared on the same inputs by the
    harness (`HIRSCHBERG_LIMIT` toggle) against the proved optimum. -/
+
+/-! ## additions of the audit: the whole pairwise clause about ONE returned alignment
+
+The theorems above each produce their own `∃ p`.  The two below state, about the single path the model returns,
+everything the property asks of a pairwise alignment at once. -/
+
+/-- **Global alignment, all clauses together**: when the reported score is finite, the returned steps are the
+annotation of ONE state path `p` that (1) emits exactly the two sequences, (2) has independently recomputed score =
+the reported score, (3) is not beaten by ANY other global path, and the rows built from it (4) have equal length and
+(5) degap to the two inputs. -/
+theorem global_alignment_sound (h : HMM S) (hns : NoSilent h) {α : Type} (s1 s2 : List α) (v : S)
+    (hv : (viterbiGlobal h s1.length s2.length).score = some v) :
+    ∃ p, (viterbiGlobal h s1.length s2.length).path = some (annotate h 0 0 p) ∧
+      IsGlobalPath h s1.length s2.length p ∧
+      globalScore h p = (viterbiGlobal h s1.length s2.length).score ∧
+      (∀ q, IsGlobalPath h s1.length s2.length q → ele (globalScore h q) (globalScore h p)) ∧
+      (rowsOfPath h s1 s2 (annotate h 0 0 p)).1.length = (rowsOfPath h s1 s2 (annotate h 0 0 p)).2.length ∧
+      (rowsOfPath h s1 s2 (annotate h 0 0 p)).1.filterMap id = s1 ∧
+      (rowsOfPath h s1 s2 (annotate h 0 0 p)).2.filterMap id = s2 := by
+  obtain ⟨p, hpath, hp, hs⟩ := global_attained h hns s1.length s2.length v hv
+  have hd := rows_degap h s1 s2 p 0 0 (by rw [hp.2]; exact Nat.le_refl _) (by rw [hp.2]; exact Nat.le_refl _)
+  rw [hp.2] at hd
+  refine ⟨p, hpath, hp, by rw [hs, hv], ?_, rows_equal_length h s1 s2 _, by simpa using hd.1, by simpa using hd.2⟩
+  intro q hq
+  rw [hs, ← hv]
+  exact global_upper h s1.length s2.length q hq
+
+/-- **Local alignment, all clauses together**: the returned steps annotate ONE local path `p` starting at
+`(i0, j0)` whose recomputed score is the reported score, that no local path over ANY contiguous sub-pair beats,
+and whose rows have equal length and degap to contiguous parts of the inputs. -/
+theorem local_alignment_sound (h : HMM S) (hns : NoSilent h) {α : Type} (s1 s2 : List α) (v : S)
+    (hv : (viterbiLocal h s1.length s2.length).score = some v) :
+    ∃ p i0 j0, (viterbiLocal h s1.length s2.length).path = some (annotate h i0 j0 p) ∧
+      IsLocalPath h s1.length s2.length i0 j0 p ∧
+      prefixScore h i0 j0 p = (viterbiLocal h s1.length s2.length).score ∧
+      (∀ a b q, IsLocalPath h s1.length s2.length a b q → ele (prefixScore h a b q) (prefixScore h i0 j0 p)) ∧
+      (rowsOfPath h s1 s2 (annotate h i0 j0 p)).1.length = (rowsOfPath h s1 s2 (annotate h i0 j0 p)).2.length ∧
+      (rowsOfPath h s1 s2 (annotate h i0 j0 p)).1.filterMap id = (s1.drop i0).take ((consumedFrom h i0 j0 p).1 - i0) ∧
+      (rowsOfPath h s1 s2 (annotate h i0 j0 p)).2.filterMap id = (s2.drop j0).take ((consumedFrom h i0 j0 p).2 - j0) := by
+  obtain ⟨p, i0, j0, hpath, hp, hs⟩ := local_attained h hns s1.length s2.length v hv
+  have hd := rows_degap h s1 s2 p i0 j0 hp.2.2.2.2.1 hp.2.2.2.2.2
+  refine ⟨p, i0, j0, hpath, hp, by rw [hs, hv], ?_, rows_equal_length h s1 s2 _, hd.1, hd.2⟩
+  intro a b q hq
+  rw [hs, ← hv]
+  exact local_upper h s1.length s2.length a b q hq
 
 /-! ## non-vacuity: a concrete 3-state affine-gap HMM over `Int` (X = 1, Y = 2, M = 3) -/
 
@@ -153,6 +198,10 @@ example : IsGlobalPath exHMM 3 2 [3, 3, 1] ∧ globalScore exHMM [3, 3, 1] = som
 example : rowsOfPath exHMM "ACG".toList "AC".toList [(3, 1, 1), (3, 2, 2), (1, 3, 2)] =
     ([some 'A', some 'C', some 'G'], [some 'A', some 'C', none]) := by decide
 example : (viterbiLocal exHMM 3 2).score = some 4 ∧ (viterbiLocal exHMM 3 2).path = some [(3, 1, 1), (3, 2, 2)] := by decide
+-- hypotheses of `global_alignment_sound` / `local_alignment_sound` on real strings, with the rows they speak about
+example : (viterbiGlobal exHMM "ACG".toList.length "AC".toList.length).score = some 1 := by decide
+example : (viterbiLocal exHMM "ACG".toList.length "AC".toList.length).score = some 4 ∧
+    rowsOfPath exHMM "ACG".toList "AC".toList [(3, 1, 1), (3, 2, 2)] = ([some 'A', some 'C'], [some 'A', some 'C']) := by decide
 example : pairValid 4 ([(1,1),(4,1)], [], 6) = true := by decide
 example : keepsAll true 4 [([(1,1),(4,1)], [], 6), ([(4,1)], [(0,1)], 4), ([], [(0,2)], 2)] = true := by decide
 
